@@ -69,8 +69,8 @@ func TestC19(t *testing.T) {
 		return func(t *testing.T, idx int, rng *rand.Rand) {
 			sc := genPrioScenario(rng, g)
 			if faults {
-				kinds := []string{"plus1", "double", "minus1"}
-				sc.Fault = &DivFault{At: 1 + rng.IntN(30), Kind: kinds[rng.IntN(3)]}
+				kinds := []string{"plus1", "double", "minus1", "outside"}
+				sc.Fault = &DivFault{At: 1 + rng.IntN(30), Kind: kinds[rng.IntN(len(kinds))]}
 			}
 			c := r.prioCase(t, sc)
 			if c.res != nil && c.res.CensusTaken {
